@@ -741,6 +741,16 @@ impl<'a> GeneratorState<'a> {
                                 pos,
                             ));
                         }
+                        // The routine must be emitted for its address to exist: taking it
+                        // counts as a use of the function by the current one
+                        if !high_byte && !second_time {
+                            if let Some(fx) = &self.current_function {
+                                self.functions_call_tree
+                                    .entry(fx.clone())
+                                    .or_default()
+                                    .push(variable.to_string());
+                            }
+                        }
                     }
                     let dummy = if let Expr::Nothing = **sub {
                         None
